@@ -13,7 +13,7 @@ Record case12 := {
    3 the model reader and the implementation read different values; 9 outside the theorem (not printable) *)
 Definition classify12 (k : case12) : Z :=
   let w := p_ord k in
-  if negb (printable w) then 9
+  if negb (printable_all w) then 9
   else if negb (zl_eq (print w) (p_repr k)) then 1
   else match read_all (pr w) with
        | Some v =>
